@@ -317,7 +317,7 @@ class PusTm(AbstractPusTm):
         )
         if (
             expected_packet_len
-            < pus_tm.pus_tm_sec_header.header_size + SPACE_PACKET_HEADER_SIZE
+            < SPACE_PACKET_HEADER_SIZE + PusTmSecondaryHeader.MIN_LEN + timestamp_len + 2
         ):
             raise ValueError("passed packet too short")
         pus_tm._source_data = data[
